@@ -21,7 +21,7 @@ KINDS = {
 }
 SAME = ["absent", "right", "subclass", "wrong", "falsy", "none"]
 PREF = ["absent", "right", "wrong"]
-WHERE = ["class", "createObjects"]
+WHERE = ["class", "createObjects", "base-class", "base-createObjects"]
 SIDE = ["novalue", "preset", "init", "private", "inherited"]
 ENTITY = ["attr", "ctor", "mode"]
 
@@ -91,7 +91,7 @@ def build_source(sc):
         def put(name, role):
             nonlocal robot_class_attrs, create
             v = value_src(sc["kind"], role)
-            if sc["where"] == "class":
+            if sc["where"] in ("class", "base-class"):
                 robot_class_attrs += f"    {name} = _mk({name!r}, {v})\n"
             else:
                 create += f"        self.{name} = _mk({name!r}, {v})\n"
@@ -117,7 +117,12 @@ def build_source(sc):
         else:
             src += "class K_c0:\n    def setup(self):\n        _cb('c0.setup', self)\n    def execute(self):\n        pass\n"
         src += "class K_first:\n    def setup(self):\n        _cb('first.setup', self)\n    def execute(self):\n        pass\n"
-        src += "class R(magicbot.MagicRobot):\n    first: K_first\n    c0: K_c0\n" + robot_class_attrs + "    def createObjects(self):\n" + create
+        if sc["where"].startswith("base-"):
+            # the robot objects live on a base robot class (class attributes, or its createObjects)
+            src += "class RB(magicbot.MagicRobot):\n" + robot_class_attrs + "    def createObjects(self):\n" + create
+            src += "class R(RB):\n    first: K_first\n    c0: K_c0\n"
+        else:
+            src += "class R(magicbot.MagicRobot):\n    first: K_first\n    c0: K_c0\n" + robot_class_attrs + "    def createObjects(self):\n" + create
         mann = "builtins._vT" if ann == "T" else ann
         mode_extra = f"    {attr}: {mann}\n    def setup(self):\n        import builtins\n        builtins._verif_cb('mode.setup', self)\n" if sc["entity"] == "mode" else ""
         return src, cname, mode_extra
